@@ -25,6 +25,7 @@ func init() {
 func runC15(c *Ctx) {
 	c.rule("U1", "loading succeeds only through Validate(): every possibly-nil return of LoadFromEnvironment follows configurationToSet.Validate() and returns its (wrapped) result; Load/LoadFromViper delegate to it", 3)
 	c.rule("U2", "source order in LoadFromEnvironment: MergeConfigMap(defaults) → configuration file → linkFlagKeysToStructureKeys → Unmarshal → Validate", 4)
+	c.rule("U16", "the functions that turn the result of Validate() into a validation error answer nil only where the error they were given was found nil (a failed validation never becomes 'no error' on another ground)", 3)
 	c.rule("U15", "the variable name a flag is bound to is made of the prefix and of the field's name: what cleanseEnvVar returns depends on both of its parameters", 1)
 	c.rule("U14", "linkFlagKeysToStructureKeys asks the session whether the flag is set (IsSet) for every structure key: no key is passed over on the strength of another list", 1)
 	c.rule("U3", "linkFlagKeysToStructureKeys: a set flag is written with Set(); the default of an unset flag is forced only where the structure key is empty", 2)
@@ -278,6 +279,107 @@ func runC15(c *Ctx) {
 		})
 		c.check(rets > 0 && usesPrefix && usesName, "U15", fname(cev)+"/prefix-and-name", c.pos(cev.Pos()), "the name returned is made of the prefix and of the field's name",
 			"the name cleanseEnvVar returns no longer depends on "+map[bool]string{true: "the field's name", false: "the prefix"}[usesPrefix]+": flags are bound to the variable named like the field path alone (USER, HOME, DB_PORT) — a variable of that name in the environment counts as 'the flag is set' and is forced onto the field, above the field's own variable, the file and the defaults; none of the names DetermineConfigurationEnvironmentVariables reports")
+	}
+
+	// ---- U16 ----------------------------------------------------------------
+	// "a value that fails validation is reported as an error": what Validate() reported reaches the caller of the loader
+	// through WrapValidationError / WrapFieldValidationError / newValidationError. Each of them answers nil for a nil error
+	// and for nothing else: a nil handed back on any other ground (an empty prefix, a kind it does not know) turns the
+	// failed validation into a successful load.
+	isVErrType := func(t types.Type) bool {
+		n := t.String()
+		return strings.HasSuffix(n, "config.IValidationError") || strings.HasSuffix(n, "config.validationError")
+	}
+	for _, f := range c.srcFuncs(cfgPkg) {
+		if f.Signature.Results().Len() != 1 || !isVErrType(f.Signature.Results().At(0).Type()) || f.Blocks == nil {
+			continue
+		}
+		var errParams []ssa.Value
+		for _, p := range f.Params {
+			if isErrorType(p.Type()) {
+				errParams = append(errParams, p)
+			}
+		}
+		if len(errParams) == 0 {
+			continue
+		}
+		c.FuncsSeen[fname(f)] = true
+		// what stands for the error: the parameter itself, or what a sibling converter made of it
+		cands := append([]ssa.Value{}, errParams...)
+		allInstrs(f, func(in ssa.Instruction) {
+			cl, ok := in.(*ssa.Call)
+			if !ok || !isVErrType(cl.Type()) {
+				return
+			}
+			for _, a := range cl.Call.Args {
+				for _, p := range errParams {
+					if sameValue(a, p) {
+						cands = append(cands, cl)
+					}
+				}
+			}
+		})
+		nilGround := func(at ssa.Instruction) bool {
+			for _, x := range cands {
+				if onNilSide(x, at) {
+					return true
+				}
+			}
+			return false
+		}
+		bad := ""
+		rets := 0
+		allInstrs(f, func(in ssa.Instruction) {
+			r, ok := in.(*ssa.Return)
+			if !ok || len(r.Results) != 1 {
+				return
+			}
+			rets++
+			var visit func(v ssa.Value, at ssa.Instruction, seen map[ssa.Value]bool)
+			visit = func(v ssa.Value, at ssa.Instruction, seen map[ssa.Value]bool) {
+				if seen[v] {
+					return
+				}
+				seen[v] = true
+				switch x := v.(type) {
+				case *ssa.Const:
+					if x.Value == nil && !nilGround(at) {
+						bad = c.ipos(at)
+					}
+				case *ssa.Phi:
+					for i, e := range x.Edges {
+						pred := x.Block().Preds[i]
+						last := pred.Instrs[len(pred.Instrs)-1]
+						if isNilConst(e) {
+							// the edge itself may be the nil branch of the test
+							if ifi, ok := last.(*ssa.If); ok {
+								if t, nilSucc, ok := nilTest(ifi); ok && pred.Succs[nilSucc] == x.Block() {
+									known := false
+									for _, cnd := range cands {
+										known = known || sameValue(t, cnd)
+									}
+									if known {
+										continue
+									}
+								}
+							}
+						}
+						visit(e, last, seen)
+					}
+				case *ssa.ChangeInterface:
+					visit(x.X, at, seen)
+				}
+			}
+			visit(r.Results[0], r, map[ssa.Value]bool{})
+		})
+		switch {
+		case rets == 0:
+			c.undecided("U16", fname(f)+"/nil-only-for-nil", c.pos(f.Pos()), "no return found")
+		case bad != "":
+			c.violate("U16", fname(f)+"/nil-only-for-nil", bad, "answers nil here although the error it was given has not been found nil: the failed validation is handed on as 'no error', LoadFromEnvironment returns what this made of Validate()'s result and the invalid configuration is loaded successfully")
+		default:
+			c.ok("U16", fname(f)+"/nil-only-for-nil", c.pos(f.Pos()), "nil is answered only where the error given (or what the sibling converter made of it) was found nil")
+		}
 	}
 
 	// ---- U4 -----------------------------------------------------------------
